@@ -129,3 +129,18 @@ prop("C14", "other",
      ["EBR-ADVANCE", "EBR-EPOCH-WRITERS", "EBR-PIN-VALIDATE", "EPOCH-ARITH"],
      ["monotonicity under racing advancers as a schedule property (follows from 'advancers are pinned and check themselves', "
       "which is argued, not checked)"], assumptions=TRUST)
+
+
+# ------------------------------------------------------------------------------------------
+from . import rules_wrap  # noqa: E402
+
+register("WRAP-ATOMICS", rules_wrap.rule_wrap_atomics)
+register("CW-ALLOC-INIT", rules_wrap.rule_alloc_init)
+register("EBR-DEFAULT-COLLECTOR", rules_wrap.rule_default_collector)
+register("CW-DEFER-WRAPPER", rules_wrap.rule_defer_wrapper)
+for _p, _rules in (("C01", ["CW-ALLOC-INIT", "CW-DEFER-WRAPPER"]), ("C02", ["EBR-DEFAULT-COLLECTOR", "CW-DEFER-WRAPPER"]),
+                   ("C03", ["CW-ALLOC-INIT", "CW-DEFER-WRAPPER"]), ("C04", ["CW-ALLOC-INIT"]), ("C10", ["CW-ALLOC-INIT"]),
+                   ("C13", ["WRAP-ATOMICS", "EBR-DEFAULT-COLLECTOR", "CW-DEFER-WRAPPER"]),
+                   ("C14", ["WRAP-ATOMICS", "EBR-DEFAULT-COLLECTOR"]), ("C17", ["WRAP-ATOMICS"]), ("C18", ["WRAP-ATOMICS"]),
+                   ("C20", ["EBR-DEFAULT-COLLECTOR"])):
+    registry.PROPS[_p]["rules"] += [x for x in _rules if x not in registry.PROPS[_p]["rules"]]
